@@ -58,6 +58,10 @@ CLAIMED = {
  "C12": ("DESIGN.md §6 C12",
          "The whole relay runs in the simulator (generic and mmsg paths): 1-5 UDP sessions are driven through lifecycle scenarios (stop while busy, idle out then stop, idle out + restart + stop, stop while sessions are being initialised) with the stop placed a drawn number of scheduling steps into live traffic; oracle: NAT sockets and relay goroutines are gone one NAT timeout after the last client datagram, a later datagram gets a working new session, Stop returns within 5 s of simulated time, afterwards no socket or goroutine of the service is left. Found the shutdown-deadline re-arm race (repaired).",
          "the stop bound asserted is 5 s (injected latencies <= 1 s, NAT timeouts >= 60 s); harness clients use the repository's packers."),
+
+ "C18": ("DESIGN.md §6 C18",
+         "Generated configuration documents (decoded the way the program decodes them) in four classes: exactly one documented invariant violated from a catalogue of 35 items (key lengths, SS2022 NAT timeout below the replay window, MTU below 1280, batch sizes and channel capacity out of range, dangling client/resolver/set/server/group-member references, duplicate names, unknown protocol/network, bad uPSK store, tunnel address problems) -> must be refused at load; boundary-valid values -> must be accepted and survive smoke traffic; spelling variants of defaulted fields (omitted / empty / explicit default for rejectPolicy, paddingPolicy, legacy single-listener fields) -> same observable behaviour, equal to the documented default; random valid combinations of servers and clients of every protocol -> smoke traffic (TCP and UDP exchange per server, failed handshake, stop) without panic. Found the rejectPolicy default and the target-only+domain crash (both repaired).",
+         "documented defaults are taken from README.md and struct doc comments; each invalid configuration violates one invariant only; TLS, GeoIP, tproxy are never configured."),
 }
 
 NOT_APPLICABLE = {
